@@ -41,6 +41,7 @@ class CannotMerge(EngineSignal):
 
 
 ENG = None  # the engine of the current process
+PATH_RESET_HOOKS = []   # callables run at the start of every path (shared-state reset of the code under test)
 
 
 def engine():
@@ -70,6 +71,7 @@ class Engine:
         self.conc_limit = conc_limit      # max distinct values enumerated at one concretisation point
         self.conc_small = conc_small      # values 0..conc_small-1 are preferred / enumerated first
         self.conc_prefer = []             # further preferred values (tried after the small ones)
+        self.time_budget = None           # wall-clock cap of one explore() in seconds (exceeding it is a truncation)
         self.max_decisions = max_decisions
         self.query_timeout_ms = query_timeout_ms
         self.seed = seed
@@ -127,7 +129,10 @@ class Engine:
     def assume(self, c):
         if isinstance(c, SymBool):
             c = c.t
-        c = z3.simplify(c)
+        self._assume_s(z3.simplify(c))
+
+    def _assume_s(self, c):
+        """add an already simplified constraint"""
         if z3.is_true(c):
             return
         self.solver.add(c)
@@ -171,12 +176,23 @@ class Engine:
         self._pathdec += 1
         if self._pathdec > self.max_decisions:
             raise Budget(f"more than {self.max_decisions} decisions on one path")
+        if self.time_budget is not None and (self._pathdec & 15) == 0 and time.time() - self._t_start > 2 * self.time_budget:
+            raise Abort("time budget of this exploration exhausted")
 
     def decide(self, c):
         """fork point on a boolean term"""
         if isinstance(c, SymBool):
             c = c.t
-        c = z3.simplify(c)
+        rk = c.get_id()
+        if rk in self._decided_raw:
+            return self._decided_raw[rk]
+        raw = c
+        r = self._decide_s(z3.simplify(c))
+        self._decided_raw[rk] = r
+        self._keep.append(raw)
+        return r
+
+    def _decide_s(self, c):
         if z3.is_true(c):
             return True
         if z3.is_false(c):
@@ -201,7 +217,7 @@ class Engine:
             if e[0] != 'b':
                 raise Abort("replay diverged (expected value entry)")
             d = e[1]
-            self.assume(c if d else z3.Not(c))
+            self._assume_s(c if d else z3.Not(c))
             return d
         nc = z3.Not(c)
         # use the cached model to avoid one of the two solver calls
@@ -228,19 +244,57 @@ class Engine:
         if t_ok and f_ok:
             self.trail.append(['b', True, True])
             self.pos += 1
-            self.assume(c)
+            self._assume_s(c)
             return True
         if t_ok:
             self.trail.append(['b', True, False])
             self.pos += 1
-            self.assume(c)
+            self._assume_s(c)
             return True
         if f_ok:
             self.trail.append(['b', False, False])
             self.pos += 1
-            self.assume(nc)
+            self._assume_s(nc)
             return False
         raise Abort("infeasible path")
+
+    def forced(self, c, timeout_ms=None):
+        """is the boolean term c forced by the path condition?  True / False (forced false) / None (neither or unknown).
+        Decision literals are answered syntactically; otherwise the solver is asked."""
+        if isinstance(c, SymBool):
+            c = c.t
+        rk = c.get_id()
+        if rk in self._decided_raw:
+            return self._decided_raw[rk]
+        if z3.is_not(c) and c.arg(0).get_id() in self._decided_raw:
+            return not self._decided_raw[c.arg(0).get_id()]
+        if (z3.is_eq(c) or z3.is_distinct(c)) and c.num_args() == 2:
+            # x == 0 versus the decided x != 0: the two spellings of one truth test
+            for a0, a1 in ((c.arg(0), c.arg(1)), (c.arg(1), c.arg(0))):   # z3 may reorder the arguments of =
+                alt = z3.Distinct(a0, a1) if z3.is_eq(c) else z3.BoolRef(z3.Z3_mk_eq(a0.ctx_ref(), a0.as_ast(), a1.as_ast()), a0.ctx)
+                if alt.get_id() in self._decided_raw:
+                    return not self._decided_raw[alt.get_id()]
+        c = z3.simplify(c)
+        if z3.is_true(c):
+            return True
+        if z3.is_false(c):
+            return False
+        k = c.get_id()
+        if k in self._lit_true:
+            return True
+        if k in self._lit_false:
+            return False
+        if z3.is_not(c):
+            k2 = c.arg(0).get_id()
+            if k2 in self._lit_true:
+                return False
+            if k2 in self._lit_false:
+                return True
+        if self.check3(z3.Not(c)) == 'unsat':
+            return True
+        if self.check3(c) == 'unsat':
+            return False
+        return None
 
     def unique(self, t):
         """the single value t can take under the path condition, or None"""
@@ -363,22 +417,55 @@ class Engine:
         engine's solver still holds its path condition, so obligations can be checked with
         eng.check(...)."""
         self.trail = []
+        t_start = self._t_start = time.time()
+        armed = False
+        if self.time_budget is not None:
+            try:
+                import signal
+
+                def _on_alarm(signum, frame):
+                    raise Abort("time budget of this exploration exhausted")
+                signal.signal(signal.SIGALRM, _on_alarm)
+                signal.setitimer(signal.ITIMER_REAL, 2 * self.time_budget + 1)
+                armed = True
+            except (ValueError, OSError):
+                armed = False
+        try:
+            yield from self._explore(fn, t_start)
+        finally:
+            if armed:
+                import signal
+                signal.setitimer(signal.ITIMER_REAL, 0)
+
+    def begin_run(self):
+        """reset the per-path state (also usable without explore() for straight-line symbolic evaluation)"""
+        self.solver = self._new_solver()
+        self.pc = []
+        self.pos = 0
+        self._model = None
+        self._alt_model = None
+        self._uniq = {}
+        self._decided = {}
+        self._decided_raw = {}
+        self._lit_true = {}
+        self._lit_false = {}
+        self._keep = []
+        self._pathdec = 0
+        self.path_trunc = []
+        self.info = {}
+        self.fresh = 0
+        if not hasattr(self, '_t_start'):
+            self._t_start = time.time()
+        reset_guards()
+        for h in PATH_RESET_HOOKS:
+            h()
+
+    def _explore(self, fn, t_start):
         while True:
-            self.solver = self._new_solver()
-            self.pc = []
-            self.pos = 0
-            self._model = None
-            self._alt_model = None
-            self._uniq = {}
-            self._decided = {}
-            self._lit_true = {}
-            self._lit_false = {}
-            self._keep = []
-            self._pathdec = 0
-            self.path_trunc = []
-            self.info = {}
-            self.fresh = 0
-            reset_guards()
+            if self.time_budget is not None and time.time() - t_start > self.time_budget:
+                self.truncated.append(('time_budget', self.time_budget))
+                return
+            self.begin_run()
             try:
                 out = ('ret', fn())
             except Abort as a:
